@@ -80,6 +80,36 @@ theorem C06_result_behaves {w w' : World} {k : Kinds} {hr : Bool} {e next : Nat}
   obtain ⟨w'', r1, r2, _⟩ := run_total (deserialize_inv h) ops hwt
   exact ⟨w'', r1, r2⟩
 
+/-- **`clear` keeps a world and its copy in step.**  The allocator `World::clear` leaves behind —
+slots and free queue, hence every identifier issued afterwards — does not depend on the order in
+which the table iterator visits the archetypes (an order that differs between a world and its
+round-tripped or cloned copy, the table being keyed by the address of each archetype's
+identifier): the slots freed by one `clear` are put in ascending order.  Before repair 0564c68 the
+free queue kept the visiting order, and a world and its copy issued different identifiers after
+`clear()`. -/
+theorem C06_clear_order_independent {w : World} (hi : Inv w) (o1 o2 : List Mask)
+    {w1 w2 : World} {d1 d2 : List Val} (e1 : w.clear o1 = .ok (w1, d1)) (e2 : w.clear o2 = .ok (w2, d2)) :
+    w1.alloc = w2.alloc ∧ w1.archs = w2.archs ∧ w1.len = w2.len ∧ w1.res = w2.res :=
+  clear_alloc_order_independent hi o1 o2 e1 e2
+
+/-- Free queue of the world an operation returns. -/
+def freeAfter : Out (World × List Val) → Option (List Nat)
+  | .ok (a, _) => some a.alloc.free
+  | .ub _ => none
+
+/-- Two tables of one entity each. -/
+def twoTables : World :=
+  ⟨2, [⟨0, [true, false], [⟨0, 0⟩], [[⟨0, 1⟩]]⟩, ⟨1, [false, true], [⟨1, 0⟩], [[⟨1, 2⟩]]⟩],
+    [], [([true, false], 0), ([false, true], 1)], ⟨[⟨0, some ⟨0, 0⟩⟩, ⟨0, some ⟨1, 0⟩⟩], []⟩, 2, [], 2⟩
+
+/-- The column loop alone does depend on the order (`clearWith`: the loop over an explicit visiting
+list): the two tables, visited in the two possible orders, leave different free queues — which is
+what the real code did before the repair; `C06_clear_order_independent` is about `clear`. -/
+example :
+    freeAfter (twoTables.clearWith twoTables.archs) = some [0, 1] ∧
+    freeAfter (twoTables.clearWith twoTables.archs.reverse) = some [1, 0] ∧ Inv twoTables := by
+  decide
+
 /-! ### the hypotheses hold along histories -/
 
 /-- No single-world operation touches a resource (C15), so `ResOk` is kept. -/
@@ -184,3 +214,4 @@ end Brood
 #print axioms Brood.C06_result_behaves
 #print axioms Brood.C06_retag_keeps
 #print axioms Brood.C06_roundtrip_history
+#print axioms Brood.C06_clear_order_independent
